@@ -176,8 +176,19 @@ def encode(v, reg, depth=0) -> list[str]:
         for b in bases:          # what `isinstance(o, b)` answers
             out += ['isinstance:' + b, 'B', '1']
         return out
+    # values built by a constructor / module function the fragment treats structurally: (name, (keyword, value)…)
+    tn = type(v).__name__
+    if tn == 'AcquisitionIndexInfo' and id(v) not in reg.ids:
+        return encode(('AcquisitionIndexInfo', ('qubit_level_index', v.qubit_level_index),
+                       ('circuit_level_index', v.circuit_level_index)), reg, depth + 1)
+    if tn == 'CircuitInstruction':
+        parts = [('name', v.name), ('targets', [('stim.target_rec', t.value) for t in v.targets_copy()])]
+        args = v.gate_args_copy()
+        if args or v.name in ('SHIFT_COORDS',):
+            parts.append(('gate_args', [int(a) if float(a) == int(a) else a for a in args]))
+        return encode(('stim.CircuitInstruction',) + tuple(parts), reg, depth + 1)
     # a raw object (result value): identity only
-    return ['O', type(v).__name__, str(reg.ident(v)), '0']
+    return ['O', tn, str(reg.ident(v)), '0']
 
 
 def encode_result(v, reg) -> str:
@@ -375,7 +386,47 @@ def gen_timing_cases(rng, n):
     return cases
 
 
-GENERATORS = {'kernels': gen_kernel_cases, 'ident': gen_ident_cases, 'timing': gen_timing_cases}
+def gen_export_cases(rng, n):
+    from qce_circuit.addon_stim.circuit_operations import DetectorOperation, LogicalObservableOperation, CoordinateShiftOperation
+    cases = []
+    opt = lambda: rng.choice([None, rng.randint(0, 6)])
+    for _ in range(n):
+        last = rng.randint(5, 9)
+        cases.append(('Detector_to_stim', [DetectorOperation(rng.randint(0, 3), last_acquisition_index=last, main_target=opt(),
+                                                           secondary_target=opt(), reference_offset=rng.choice([None, 1, 2]),
+                                                           secondary_offset=rng.choice([None, 1, 2]))]))
+        cases.append(('Observable_to_stim', [LogicalObservableOperation(rng.randint(0, 3), last_acquisition_index=rng.choice([None, last]),
+                                                                       main_target=opt())]))
+        cases.append(('CoordinateShift_to_stim', [CoordinateShiftOperation([0, 1], time_shift=rng.randint(0, 2), space_shift=rng.randint(0, 2))]))
+    return cases
+
+
+def gen_acq_cases(rng, n):
+    from qce_circuit.language.declarative_circuit import DeclarativeCircuit
+    from qce_circuit.structure.circuit_operations import DispersiveMeasure, Rx180
+    cases = []
+    for _ in range(n):
+        c = DeclarativeCircuit()
+        ms = []
+        for i in range(rng.randint(1, 6)):
+            if rng.random() < 0.6:
+                m = DispersiveMeasure(rng.randint(0, 2), acquisition_strategy=c.get_acquisition_strategy())
+                c.add(m)
+                ms.append(m)
+            else:
+                c.add(Rx180(rng.randint(0, 2)))
+        other = DeclarativeCircuit()
+        foreign = DispersiveMeasure(0, acquisition_strategy=other.get_acquisition_strategy())
+        reg = c._acquisition_registry if hasattr(c, '_acquisition_registry') else c.get_acquisition_strategy().registry
+        for m in rng.sample(ms, min(2, len(ms))) + [foreign]:
+            cases.append(('AcquisitionRegistry_get_registry_at', [reg, m.acquisition_identifier]))
+    return cases
+
+
+ENGINE_CALLS = {'Detector_to_stim', 'Observable_to_stim', 'CoordinateShift_to_stim'}
+
+GENERATORS = {'kernels': gen_kernel_cases, 'ident': gen_ident_cases, 'timing': gen_timing_cases, 'export': gen_export_cases,
+              'acq': gen_acq_cases}
 
 
 def run_cases(cases):
@@ -397,6 +448,11 @@ def run_cases(cases):
             skipped += 1
             continue
         except Exception:
+            if name in ENGINE_CALLS:
+                # the exception comes out of the third-party constructor (stim rejects the instruction), which the fragment
+                # treats as an uninterpreted function: nothing to compare
+                skipped += 1
+                continue
             exp = 'X'
         try:
             toks = []
